@@ -16,7 +16,7 @@ USER = ['','','','u@','u:p@','user:pw@',':pw@',':@','@','a@b@','u:p:q@','us/er@'
 LABELS = ['%C3%A4%', '%C3%A4%zz', '%E4%BD%A0%4', '%c3%a4%.', 'a%C3%A4%2', '%FF%', str((1 << 64) + 1), '0x%x' % ((1 << 64) + 1), '0%o' % ((1 << 64) + 5), '0x3000000000000007f000001', str((1 << 32) + 1), '0x%x' % ((1 << 32) * 7 + 9), 'a'*63,'a'*64,'a'*70,'xn--'+'a'*60,'h','host','example','EXAMPLE','ex-ample','a--b','ab--c','-a','a-','xn--exmple-cua','XN--EXMPLE-CUA','xn--','xn--a','\u00e4','b\u00fccher','\u05d0','\u05d0a','1\u05d0','a\u200d','\u0628\u200d','\u0645\u0660','\uff41','\u00df','\u03c2','%41','%c3%a4','%e4','a%','%zz','\u00ad','a\u0338','<\u0338','=\u0338','>\u0338','<%CC%B8','a_b','a~b','a!b',"a'b",'a*b','0','1','08','0x','0x1f','0XAB','4294967295','4294967296','256','255','999999999999','00000000001','0x100000000','1e3','a\u0301','\U0001f600','xn--80ak6aa92e','xn--nxasmq6b','faß','\u200c','a\u200cb','\u0644\u200c\u0627','%F0%9F%92%A9','%80','\ufffd']
 TLDS = ['xn--2da','\u0105','%2Ecom','com','org','de','','\u3002jp','\uff0ecom','.','0','1','0x7f','09','0x','1.','COM']
 IPV4 = ['1.2.3.4.5.6.7','1.2.3.4.5.6.7.8.9.','\u0131.2.3.4','1.2.3.\u0134','0x\u0141','0\u0178f.1','1\u012e2.3.4','1.2.3.4','127.1','0x7f.1','0177.0.0.1','1.2.3','1.2.3.4.','1.2.3.4.5','1..2','256.1.1.1','1.256.1.1','1.1.1.256','1.1.256','1.1.65535','1.1.65536','1.16777215','1.16777216','4294967295','4294967296','0xffffffff','0x100000000','08','09.1','0x','0x.1','1.0x','00000000000000000001','077777777777','037777777777','040000000000','1.2.3.08','1.2.3.4x','0x1g','.1','1.','a.1','0xx','0x1x','1x','x','0X1.0x2.0X3.4','1.2.0x','0.0.0.0','255.255.255.255','0x7F000001','017700000001','1.2.3.4..','..','1.2.3.0x100','1.2.65536','0.0.0.256']
-IPV6 = ['[::1.2.3.4294967297]','[::ffff:0.42949672970.0.1]','[1:2:3:4:5:6:1.2.12884901891.4]','[::100000001]','[::10001]','[::1.2.3.256]','[::1.2.3.18446744073709551617]','[\u0131::1]','[1::\u0162]','[\uff41::]','[::\U00010041]','[1:\u0132:3::]','[::1.\u0132.3.4]','[::]','[::1]','[1::]','[1:2:3:4:5:6:7:8]','[1:2:3:4:5:6:7::]','[::2:3:4:5:6:7:8]','[1::8]','[1:0:0:2:0:0:0:3]','[0:0:1:0:0:1:0:0]','[1:0:0:0:1:0:0:1]','[::1.2.3.4]','[::ffff:1.2.3.4]','[1:2:3:4:5:6:1.2.3.4]','[1:2:3:4:5:6:7:1.2.3.4]','[::1.2.3]','[::1.2.3.4.5]','[::01.2.3.4]','[::256.1.1.1]','[::1.2.3.4','[1:2:3:4:5:6:7:8:9]','[1::2::3]','[:1]','[1:]','[12345::]','[g::]','[::1]x','[FFFF:AbCd::0001]','[0:0:0:0:0:0:0:0]','[1:2:3:4:5:6:7]','[::.1.2.3]','[1:2:3:4:5:6::1.2.3.4]','[::1.2.3.4:5]','[::0.0.0.0]','[::255.255.255.255]','[0:1:0:1:0:1:0:1]','[1:0:0:1:0:0:0:0]','[]','[:]','[:::]','[1:2:3:4:5:6:7:8::]','[::1:2:3:4:5:6:7:8]','[1:2:3:4::5:6:7:8]','[1::2:3:4:5:6:7]','[0::0]','[::00001]','[::1.2.3.4.]','[::1.2..3]','[1:2:3:4:5:1.2.3.4]','[::10.0.0.1]','[::1.02.3.4]','[::1.2.3.300]']
+IPV6 = ['[0000:0000:0000:0000:0000:ffff:192.168.100.100]','[ffff:ffff:ffff:ffff:ffff:ffff:255.255.255.255]','[00ab:00ab:00ab:00ab:00ab::100.100.100.100]','[0000:0000:0000:0000:0000:0000:0000:0001]','[::1.2.3.4294967297]','[::ffff:0.42949672970.0.1]','[1:2:3:4:5:6:1.2.12884901891.4]','[::100000001]','[::10001]','[::1.2.3.256]','[::1.2.3.18446744073709551617]','[\u0131::1]','[1::\u0162]','[\uff41::]','[::\U00010041]','[1:\u0132:3::]','[::1.\u0132.3.4]','[::]','[::1]','[1::]','[1:2:3:4:5:6:7:8]','[1:2:3:4:5:6:7::]','[::2:3:4:5:6:7:8]','[1::8]','[1:0:0:2:0:0:0:3]','[0:0:1:0:0:1:0:0]','[1:0:0:0:1:0:0:1]','[::1.2.3.4]','[::ffff:1.2.3.4]','[1:2:3:4:5:6:1.2.3.4]','[1:2:3:4:5:6:7:1.2.3.4]','[::1.2.3]','[::1.2.3.4.5]','[::01.2.3.4]','[::256.1.1.1]','[::1.2.3.4','[1:2:3:4:5:6:7:8:9]','[1::2::3]','[:1]','[1:]','[12345::]','[g::]','[::1]x','[FFFF:AbCd::0001]','[0:0:0:0:0:0:0:0]','[1:2:3:4:5:6:7]','[::.1.2.3]','[1:2:3:4:5:6::1.2.3.4]','[::1.2.3.4:5]','[::0.0.0.0]','[::255.255.255.255]','[0:1:0:1:0:1:0:1]','[1:0:0:1:0:0:0:0]','[]','[:]','[:::]','[1:2:3:4:5:6:7:8::]','[::1:2:3:4:5:6:7:8]','[1:2:3:4::5:6:7:8]','[1::2:3:4:5:6:7]','[0::0]','[::00001]','[::1.2.3.4.]','[::1.2..3]','[1:2:3:4:5:1.2.3.4]','[::10.0.0.1]','[::1.02.3.4]','[::1.2.3.300]']
 BADHOST = ['a b','a<b','a>b','a^b','a|b','a\\b','a[b','a]b','a@b','a:b','a%00b','a\x7fb','a\x01b','a%7fb','a%20b','a#b','a?b','a/b','[a',']',' ','%','a\tb','a%25b','a%2Fb','a%3Ab']
 PORTS = ['','','','',':',':80',':443',':21',':0',':8080',':65535',':65536',':00080',':000000080',':0000065535',':99999',':100000',':8x',':x',':-1',':80 ',':\uff10',':00000',':065536',':1\t2',':65616',':4294967376',':4294967297',':18446744073709551696',':131072',':' + '0' * 30 + '81']
 SEGS = ['C:d','c|x','a','b','c','.','..','%2e','%2E','.%2e','%2e.','%2E%2e','%2e%2E','.%2E','...','','x y','C:','C|','c|','d:','\u00e4','%','%g1','?','a;b',"a'b",'a`b','{x}','a\\b','a%5Cb','~','\x7f','a\x01','%00','\U0001f600','^','|','a|b','%7C','C%7C','%2e%2e%2e','.%2e.','\u0080','\u07ff','\u0800','\ud7ff','\ue000','\uffff','\U00010000','\U0010ffff']
@@ -122,7 +122,10 @@ class Gen:
                 t = self.pick(TLDS)
                 h = h + ('' if t.startswith(('\u3002', '\uff0e', '.')) or t == '' else '.') + t
             return h
-        if r < 50: return self.pick(IPV4)
+        if r < 44: return self.pick(IPV4)
+        if r < 50:
+            # numeric hosts built like the ipv4 stream builds them (1 to 5 parts, optional trailing dot)
+            return '.'.join(self.ipv4num() for _ in range(self.r.choice([1, 1, 2, 2, 3, 4, 4, 5]))) + self.pick(['', '', '', '.'])
         if r < 65: return self.pick(IPV6)
         if r < 75: return self.pick(BADHOST)
         if r < 80: return ''
@@ -377,6 +380,18 @@ class Gen:
                 for v in ('1', '2', '3'): self.emit('psp 0 append %s %s' % (self.arg(ln), self.arg(v)))
             self.emit('psp 0 %s' % self.pick(['aparse %s' % self.arg(self.pick(['next', 'a', 'q', 'b'])), 'aappend', 'aset', 'aset2', 'aset2', 'adel', 'adel2', 'selfsafea']))
             self.emit('psp 0 sort')
+        if self.r.randrange(8) == 0:
+            # LONG lists (beyond the small-range thresholds of sorting algorithms: 16, 32, 64) with few distinct names and
+            # pairwise distinct values: stability of sort(), get / get_all after it, standalone and owned by a url
+            self.stat('psp:long-list')
+            n = self.pick([17, 18, 24, 33, 40, 65, 70, 130])
+            names = self.pick([['a', 'b'], ['b', 'a', 'c'], ['k'], ['\uffff', '\U00010000', 'z'], ['x', 'x', 'x', 'y']])
+            q = '&'.join('%s=%d' % (self.pick(names), i) for i in range(n))
+            if self.r.randrange(2):
+                self.emit('psp 0 ctor %s' % self.arg(q)); self.emit('psp 0 sort'); self.emit('psp 0 getall %s' % self.arg(names[0])); self.emit('psp 0 str')
+                self.emit('psp 0 append %s %s' % (self.arg(names[-1]), self.arg('last'))); self.emit('psp 0 sort')
+            else:
+                self.emit('parse 0 %s -' % self.arg('http://h/p?' + q + '#f')); self.emit('sp 0 get'); self.emit('sp 0 sort'); self.emit('sp 0 getall %s' % self.arg(names[0])); self.emit('dump 0')
         if self.r.randrange(5) == 0:
             # a list known to be sorted receives an UNSORTED list from another object, then is sorted: every
             # cached fact about the old list must have gone with it
@@ -391,6 +406,11 @@ class Gen:
         alphabet = [0x26, 0x3D, 0x2B, 0x25, 0x34, 0x31, 0x46, 0x61, 0x3F, 0xC3, 0xA9, 0xFF, 0x20, 0x67, 0xE2, 0x82, 0xF0, 0x9F, 0x92, 0x78, 0xC0, 0xC1, 0xAE, 0x80]
         n = self.r.randrange(0, 16)
         b = [self.pick(alphabet) for _ in range(n)]
+        if self.r.randrange(16) == 0:
+            # a LONG escaped value / name (beyond every internal block and buffer size), shifted by a few bytes
+            self.stat('form:long')
+            mb = self.pick([[0x25, 0x45, 0x32, 0x25, 0x38, 0x32, 0x25, 0x41, 0x43], [0x25, 0x43, 0x33, 0x25, 0x41, 0x39], [0xE2, 0x82, 0xAC], [0x2B], [0x25, 0x46, 0x30, 0x25, 0x39, 0x46, 0x25, 0x39, 0x32, 0x25, 0x41, 0x39]])
+            b = b[:3] + self.pick([[], [0x3D], [0x26, 0x78, 0x3D]]) + mb * self.pick([22, 43, 44, 65, 86, 130, 342]) + self.pick([[], [0x25], [0x26, 0x61]])
         # finding F4 (raw lead byte followed by an escaped continuation) is excluded from this stream:
         # no raw byte >= 0x80 directly before '%'
         for i in range(len(b) - 1):
@@ -490,6 +510,21 @@ class Gen:
         else:
             # a path whose decisive characters come late (a scanner that covers only part of a wide string)
             self.emit('frompath %s %d %s' % (self.pick(['posix', 'windows']), e, U(units(self.pick(['/srv/www/public/../secret', 'C:\\srv\\www\\public\\..\\secret', '\\\\server\\share\\public\\..\\x', '/a/b/c/d/e/f/g/h/%2e%2e', '/aaaaaaaaaaaaaaaaaaaaaaaa/b?c#d', 'C:\\aaaaaaaaaaaaaaaa\\b|c']), e))))
+
+        if self.r.randrange(5) == 0:
+            # the same well-formed name / value in every encoding through every query and mutator of a params object
+            # (short names and names of 16+ UTF-8 bytes: beyond the small-string buffer of the converted temporary)
+            self.stat('enc:params-queries')
+            nm = ''.join(self.pick(BOUNDARY + ['a', 'key', '\u4f60\u597d', '\U0001f600', '\u00e9', 'x y', 'n&=']) for _ in range(self.pick([1, 1, 2, 4, 7])))
+            vl = ''.join(self.pick(BOUNDARY + ['v', '1', '\U0001f4a9', '\uffff', ' ']) for _ in range(self.pick([0, 1, 3, 6])))
+            k = self.pick(['psp', 'sp'])
+            e0 = self.pick([8, 16, 32])
+            self.emit('%s 0 append %d %s %d %s' % (k, e0, U(units(nm, e0)), e0, U(units(vl, e0))))
+            for _ in range(self.r.randrange(2, 6)):
+                e1 = self.pick([8, 16, 32]); e2 = self.pick([8, 16, 32])
+                o = self.pick(['has', 'has', 'getv', 'getv', 'getall', 'has2', 'set', 'append', 'del2', 'del', 'remove'])
+                if o in ('has2', 'set', 'append', 'del2'): self.emit('%s 0 %s %d %s %d %s' % (k, o, e1, U(units(nm, e1)), e2, U(units(vl, e2))))
+                else: self.emit('%s 0 %s %d %s' % (k, o, e1, U(units(nm, e1))))
 
     def s_set_exh(self, k, stride=None):
         """C03/C05/C08: EVERY structured start URL x EVERY key value of every setter, one call each, then the call
@@ -659,20 +694,22 @@ class Gen:
         self.emit('utf 8 %s' % U(b))
         return True
 
+    def ipv4num(self):
+        """one IPv4 number: boundary and wrapping values, in every radix, zero-padded after the prefix (the padding makes the
+        text longer than any digit-count limit while the value stays in range)"""
+        v = self.pick([0, 1, 7, 8, 9, 127, 255, 256, 65535, 65536, 2**24 - 1, 2**24, 2**32 - 1, 2**32, 2**32 + 1, 2**64 - 1, 2**64, 2**64 + 1, self.r.randrange(2**32)] + WRAPV)
+        f = self.pick(['%d', '0x%x', '0X%X', '0%o'])
+        z = '0' * self.pick([0, 0, 0, 1, 2, 5, 9, 10, 11, 12, 14, 15, 16, 20])
+        t = f % v
+        if f.startswith('0x') or f.startswith('0X'): return t[:2] + z + t[2:]
+        return (z + t) if f != '%d' else t
     def s_ipv4(self):
         self.stat('case:ipv4')
         x = self.r.randrange(100)
         if x < 40: s = self.pick(IPV4)
         elif x < 60: s = self.mutate(self.pick(IPV4))
         elif x < 85:
-            def num():
-                v = self.pick([0, 1, 7, 8, 9, 255, 256, 65535, 65536, 2**24 - 1, 2**24, 2**32 - 1, 2**32, 2**32 + 1, 2**64 - 1, 2**64, 2**64 + 1, self.r.randrange(2**32)] + WRAPV)
-                f = self.pick(['%d', '0x%x', '0X%X', '0%o'])
-                z = '0' * self.pick([0, 0, 0, 1, 2, 5, 11, 20])
-                t = f % v
-                if f.startswith('0x') or f.startswith('0X'): return t[:2] + z + t[2:]
-                return (z + t) if f != '%d' else t
-            s = '.'.join(num() for _ in range(self.r.choice([1, 2, 3, 4, 4, 5, 6, 7, 8, 12]))) + self.pick(['', '', '.', '..'])
+            s = '.'.join(self.ipv4num() for _ in range(self.r.choice([1, 2, 3, 4, 4, 5, 6, 7, 8, 12]))) + self.pick(['', '', '.', '..'])
         else:
             s = ''.join(self.pick('0178 9afxX.g-'.replace(' ', '')) for _ in range(self.r.randrange(0, 14)))
         if s and self.r.randrange(8) == 0:
@@ -708,6 +745,17 @@ class Gen:
             if self.r.randrange(3) == 0:
                 i = self.r.randrange(len(s) + 1); s = s[:i] + '::' + s[i:]
             if self.r.randrange(4) == 0: s += self.pick([':1.2.3.4', '.1', ':1.2.3', ':256.0.0.1', ':01.2.3.4', ':1.2.3.4.5', ':1.2.3.4:'])
+        elif x < 88 and self.r.randrange(2):
+            # LONG literals: full-width (zero-padded 4-digit) pieces with an embedded IPv4 tail of 3-digit parts — up to the
+            # 45 characters a valid literal can have — with and without compression, and one piece / part too many
+            np = self.pick([6, 6, 6, 5, 4, 7, 2])
+            ps = [self.pick(['0000', 'ffff', '00ab', 'FFFF', '0001', 'abcd']) for _ in range(np)]
+            tail = '.'.join(self.pick(['255', '100', '192', '168', '000', '256', '25', '1']) for _ in range(self.pick([4, 4, 4, 3, 5])))
+            s = ':'.join(ps) + ':' + tail
+            if np < 6 or self.r.randrange(4) == 0:
+                i = self.r.randrange(np + 1); s = ':'.join(ps[:i]) + '::' + ':'.join(ps[i:]) + (':' if i < np else '') + tail
+            if self.r.randrange(6) == 0: s = ':'.join(self.pick(['0000', 'ffff', '00ab']) for _ in range(self.pick([8, 8, 7, 9])))
+            self.stat('ipv6:long')
         elif x < 92:
             # a number that wraps: as a part of the embedded IPv4 address (any position) or as a hex piece
             w = self.pick(WRAPV)
@@ -750,6 +798,16 @@ class Gen:
             lo, hi = self.pick([(0x21, 0x7e), (0x21, 0xff), (0x00, 0xff), (0x80, 0xff), (0x41, 0x41), (0x7f, 0x21), (0xff, 0xff), (0x00, 0x00), (self.r.randrange(256), self.r.randrange(256))])
             t = ''.join(self.pick(['a', 'Z', ' ', '%', '~', '\x00', '\x7f', '\u00e9', '\u00ff', '!', '/']) for _ in range(self.r.randrange(0, 8)))
             self.emit('pencset %x %x %x %s' % (lo, hi, self.pick([0x25, 0x41, 0xff, 0x00]), self.arg(t, e)))
+        elif x < 11:
+            # LONG runs: escape runs and multi-byte text longer than any internal block / buffer size (64, 128, 256, 1024),
+            # shifted by 0..3 bytes so that a multi-byte sequence straddles every such boundary
+            self.stat('pct:long')
+            mb = self.pick(['%E2%82%AC', '%C3%A9', '%F0%9F%92%A9', '%E4%BD%A0', '\u20ac', '\U0001f4a9', '\u00e9'])
+            pre = ''.join(self.pick(['%20', '%41', 'a', '%C3%A9', '%7F']) for _ in range(self.r.randrange(0, 4)))
+            n = self.pick([22, 43, 44, 64, 65, 86, 128, 130, 257, 342, 400])
+            t = pre + mb * n + self.pick(['', '%', '%E2%82', 'z'])
+            if self.r.randrange(3): self.emit('pdec %s' % self.arg(t, e))
+            else: self.emit('penc %s %s' % (self.pick(['fragment', 'query', 'path', 'component']), self.arg(t, e)))
         elif x < 40:
             t = ''.join(self.pick(['a', ' ', '%', '/', '?', '#', "'", '"', '<', '`', '{', '|', '\\', '^', ':', '@', '=', '&', '+', '$', ',', ';', '[', ']', '~', '!', '(', '*', '\x00', '\x1f', '\x7f'] + BOUNDARY) for _ in range(self.r.randrange(0, 8)))
             self.emit('penc %s %s' % (self.pick(['fragment', 'query', 'squery', 'path', 'rawpath', 'posixpath', 'userinfo', 'component']), self.arg(t, e)))
@@ -812,7 +870,7 @@ class Gen:
             self.stat('file:windows')
         else:
             host = self.pick(['', '', '', 'host', 'h', '.', 'localhost', '1.2.3.4', '[::1]', '%2E', 'C:', '..'])
-            body = self.pick(['/', '/a/b', '/C:/x', '/C|/x', '/c:', '/C:', '/a%7C/x', '/C%3A/x', '//h/s/x', '///h/s', '////h/s', '/a%00b', '/a%2Fb', '/a%5Cb', '/%2e%2e/x', '/..%2Fx', '/a b', '/%C3%A4', '/%FF', '/?', '//./x', '//?/x', '//h/./x', '//h/../x', '/%3F', '//%2E/s', '///./s', '/a/./b', '/x/', '//', '/C:/a/../..', '/%5C%5Ch%5Cs'])
+            body = self.pick(['/', '/a/b', '/C:/x', '/C|/x', '/c:', '/C:', '/C:x', '/C:x/y', '/c:%5Cx', '/C:.', '/a%7C/x', '/C%3A/x', '//h/s/x', '///h/s', '////h/s', '/a%00b', '/a%2Fb', '/a%5Cb', '/%2e%2e/x', '/..%2Fx', '/a b', '/%C3%A4', '/%FF', '/?', '//./x', '//?/x', '//h/./x', '//h/../x', '/%3F', '//%2E/s', '///./s', '/a/./b', '/x/', '//', '/C:/a/../..', '/%5C%5Ch%5Cs'])
             self.emit('parse 0 %s -' % self.arg('file://' + host + body))
             self.emit('topath %s 0' % self.pick(['posix', 'windows']))
             self.emit('topath %s 0' % self.pick(['posix', 'windows']))
@@ -829,7 +887,7 @@ class Gen:
         """C04 / C17: EVERY prefix of key path strings, both formats: each look-ahead of the path scanners is taken at
         the very end of an exactly sized, unterminated buffer"""
         keys = ['\\\\?\\UNC\\host\\share\\x', '\\\\.\\unc\\h\\s', '//?/UNC/h/s/', '\\\\?\\C:\\dir\\..\\x', '\\\\.\\c|\\x', '\\\\host\\share\\a\\..\\b',
-                '//host/share/..', 'C:\\dir\\.\\..\\x y', 'c|/a/../..', '\\\\localhost\\C:\\x', '\\\\h\\s\\%41%', '/usr/../lib/./x%2', '/a/..', '/..', '/%2e%2E/', '\\\\?\\', '\\\\?\\UNC\\', '\\\\?\\UNC\\h', '\\\\?\\UNC\\h\\']
+                '//host/share/..', 'C:\\dir\\.\\..\\x y', 'c|/a/../..', '\\\\localhost\\C:\\x', '\\\\h\\s\\%41%', '/usr/../lib/./x%2', '/a/..', '/..', '/%2e%2E/', '\\\\?\\', '\\\\?\\UNC\\', '\\\\?\\UNC\\h', '\\\\?\\UNC\\h\\', '\\\\?\\UXC\\h\\s', '\\\\?\\UNX\\h\\s', '\\\\.\\uNcx\\h\\s', '\\\\?\\XNC\\h\\s']
         tot = 0
         for key in keys:
             n = len(key) + 1
@@ -853,7 +911,7 @@ class Gen:
         if fmt == 'posix':
             p = '/' + '/'.join(self.pick(segs + ['\\']) for _ in range(self.r.randrange(0, 5)))
         else:
-            pre = self.pick(['C:\\', 'c:/', 'C|\\', 'z:\\', '\\\\host\\share\\', '//host/share/', '\\\\?\\C:\\', '\\\\?\\UNC\\host\\share\\', '\\\\localhost\\share\\', '\\\\LOCALHOST\\s\\', '\\\\localhost\\C:\\', '\\\\host\\C|\\', '\\\\..\\share\\', '\\\\1.2.3.4\\s\\', '\\\\b\u00fccher\\s\\', '\\\\h%41\\s\\', '\\\\ho st\\s\\'])
+            pre = self.pick(['C:\\', 'c:/', 'C|\\', 'z:\\', '\\\\host\\share\\', '//host/share/', '\\\\?\\C:\\', '\\\\?\\UNC\\host\\share\\', '\\\\localhost\\share\\', '\\\\LOCALHOST\\s\\', '\\\\localhost\\C:\\', '\\\\host\\C|\\', '\\\\..\\share\\', '\\\\1.2.3.4\\s\\', '\\\\b\u00fccher\\s\\', '\\\\\u3002\\s\\', '\\\\\uff0e\\share\\', '\\\\\uff61\\s\\', '\\\\?\\UNC\\\u3002\\s\\', '\\\\\u3002\u3002\\s\\', '\\\\loc\u00adalhost\\s\\', '\\\\h%41\\s\\', '\\\\ho st\\s\\'])
             p = pre + self.pick(['\\', '/']).join(self.pick(segs) for _ in range(self.r.randrange(0, 4)))
         self.emit('rt %s %s' % (fmt, self.arg(p)))
 
